@@ -5,6 +5,7 @@ import (
 	"fmt"
 	"math/big"
 	"strings"
+	"sync"
 	"time"
 
 	"github.com/trustbloc/sidetree-core-go/pkg/jws"
@@ -55,6 +56,73 @@ func jwsCall(p []byte) (reply []byte) {
 			outcomes = append(outcomes, r[:strings.IndexByte(r, ':')])
 		}
 		return []byte("OK:" + strings.Join(outcomes, ","))
+	}
+	if c.Kind == "concurrent" {
+		// the cases are first run one after the other, then by eight goroutines at once (different orders, many rounds);
+		// every concurrent outcome must equal the sequential one. Half of the goroutines also sign fresh payloads with the
+		// library's utilities and verify what they signed.
+		want := make([]string, len(c.Seq))
+		for i, sc := range c.Seq {
+			b, _ := json.Marshal(sc)
+			r := string(jwsCall(b))
+			want[i] = r[:strings.IndexByte(r, ':')]
+		}
+		seed, _ := ref.UnB64(c.KeySeed)
+		var wg sync.WaitGroup
+		var mu sync.Mutex
+		problem := ""
+		for g := 0; g < 8; g++ {
+			wg.Add(1)
+			go func(g int) {
+				defer wg.Done()
+				defer func() {
+					if r := recover(); r != nil {
+						mu.Lock()
+						problem = fmt.Sprintf("panic in a concurrent caller: %v", r)
+						mu.Unlock()
+					}
+				}()
+				k := ref.NewKey([]string{"Ed25519", "P-256"}[g%2], fmt.Sprint("conc", g), append(append([]byte{}, seed...), byte(g)))
+				kj := jwkStrings(k)
+				pub := &jws.JWK{Kty: kj["kty"], Crv: kj["crv"], X: kj["x"], Y: kj["y"]}
+				signer := libSigner(k, "")
+				for round := 0; round < 30; round++ {
+					for i := range c.Seq {
+						n := (i*5 + g*3 + round) % len(c.Seq)
+						b, _ := json.Marshal(c.Seq[n])
+						r := string(jwsCall(b))
+						if got := r[:strings.IndexByte(r, ':')]; got != want[n] {
+							mu.Lock()
+							if problem == "" {
+								problem = fmt.Sprintf("verification #%d gave %s while other verifications were running, %s when run alone", n, got, want[n])
+							}
+							mu.Unlock()
+							return
+						}
+					}
+					if g%2 == 0 {
+						payload := []byte(fmt.Sprintf(`{"goroutine":%d,"round":%d,"pad":"%s"}`, g, round, strings.Repeat("x", round)))
+						j, err := verifhooks.SignPayload(payload, signer)
+						if err == nil {
+							_, err = verifhooks.VerifyJWS(j, pub)
+						}
+						if err != nil {
+							mu.Lock()
+							if problem == "" {
+								problem = "a JWS signed by the library while other goroutines sign and verify does not verify under its key: " + err.Error()
+							}
+							mu.Unlock()
+							return
+						}
+					}
+				}
+			}(g)
+		}
+		wg.Wait()
+		if problem != "" {
+			return []byte("ERR:" + problem)
+		}
+		return []byte("OK:")
 	}
 	if c.Kind == "sign-twice" {
 		seed, _ := ref.UnB64(c.KeySeed)
@@ -121,7 +189,7 @@ func cloneJWK(m map[string]string) map[string]string {
 }
 
 func checkC09(c *hx.Ctx) {
-	c.Rule("for each of the five key types: genuine compact JWS built independently (harness/ref) and by the library's SignPayload, headers {alg}, {alg,kid} and - signed by the library - {alg[,kid],b64:true|false}, several payload sizes; oracle (constructive): verifies under its key; every single-byte alteration (2 bit patterns) of the decoded protected header that changes its value or breaks it, every byte of the payload, every byte of the signature, truncations/extensions/empty/swapped/zeroed r or s, every pairing with every other key of the universe, and JWKs made of the genuine characters split at another member boundary (verified in one process right after and right before the genuine JWK) must be rejected; a library signer object that signs twice must leave its first signature intact and valid (the ECDSA twin (r,n-s) is counted, not judged); malformed JWKs (missing/unknown kty or crv, coordinate length +-1, off-curve point, wrong Ed25519 size), headers without alg or with non-boolean b64, and structured-random compact strings must yield an error and never a panic; executed through the verif-tagged re-export of internal/jws in crash-isolated workers; non-trivial = altered or malformed input; distinct = distinct (jws, jwk) inputs")
+	c.Rule("for each of the five key types: genuine compact JWS built independently (harness/ref) and by the library's SignPayload, headers {alg}, {alg,kid} and - signed by the library - {alg[,kid],b64:true|false}, several payload sizes; oracle (constructive): verifies under its key; every single-byte alteration (2 bit patterns) of the decoded protected header that changes its value or breaks it, every byte of the payload, every byte of the signature, truncations/extensions/empty/swapped/zeroed r or s, every pairing with every other key of the universe, and JWKs made of the genuine characters split at another member boundary (verified in one process right after and right before the genuine JWK) must be rejected; a library signer object that signs twice must leave its first signature intact and valid; eight goroutines verifying genuine and altered JWS of equal length (and signing) at once must get the outcomes of the calls made alone (race detector in the thorough tier) (the ECDSA twin (r,n-s) is counted, not judged); malformed JWKs (missing/unknown kty or crv, coordinate length +-1, off-curve point, wrong Ed25519 size), headers without alg or with non-boolean b64, and structured-random compact strings must yield an error and never a panic; executed through the verif-tagged re-export of internal/jws in crash-isolated workers; non-trivial = altered or malformed input; distinct = distinct (jws, jwk) inputs")
 	c.Assume("Go crypto and btcec are trusted; a header edit counts as an alteration only if the header value changes or stops parsing (DESIGN Appendix B)")
 	pool := hx.NewPool(c, "jws", 16, 4*1024*1024, 30*time.Second)
 	defer pool.Close()
@@ -216,6 +284,62 @@ func checkC09(c *hx.Ctx) {
 					}
 				}
 			}
+		}
+	}
+	// the library's own JWK of a public key (pubkey.GetPublicKeyJWK) is the fixed-width big-endian encoding of the
+	// coordinates - also when a coordinate starts with zero bytes - and a genuine JWS verifies under it
+	for _, t := range ref.KeyTypes {
+		found := 0
+		for n := 0; n < 4000 && found < 3; n++ {
+			k := ref.NewKey(t, "lz", []byte(fmt.Sprintf("%06d-leading-zero-coordinate-search", n))[:32])
+			lead := t == "Ed25519" && n < 3
+			if k.Curve() != nil {
+				cs := k.CoordSize()
+				lead = len(k.X.Bytes()) < cs || len(k.Y.Bytes()) < cs
+			}
+			if !lead {
+				continue
+			}
+			found++
+			c.Eval()
+			lj, err := libJWK(k)
+			want := jwkStrings(k)
+			if err != nil || lj.Kty != want["kty"] || lj.Crv != want["crv"] || lj.X != want["x"] || lj.Y != want["y"] {
+				c.Violation(fmt.Sprintf("C09 pubkey.GetPublicKeyJWK of a %s key whose coordinate starts with a zero byte differs from the fixed-width encoding (err=%v)", t, err),
+					map[string]interface{}{"library_jwk": lj, "reference_jwk": want})
+				return
+			}
+			j := ref.CompactJWS(k, k.Header(""), []byte(`{"lz":1}`))
+			if !mustAccept("genuine-under-library-jwk-leading-zero:"+t, jwsCase{Kind: "verify", JWS: j, JWK: map[string]string{"kty": lj.Kty, "crv": lj.Crv, "x": lj.X, "y": lj.Y}}) {
+				return
+			}
+			c.Count("library_jwk_of_key_with_leading_zero_coordinate:" + t)
+		}
+	}
+	// concurrent verification and signing in one process: genuine and altered JWS of equal length, all key types
+	{
+		var cases []jwsCase
+		for _, t := range ref.KeyTypes {
+			k := ref.NewKey(t, "cc", rng.Bytes(32))
+			for n := 0; n < 3; n++ {
+				pl := []byte(fmt.Sprintf(`{"n":%d,"type":"%s"}`, n, t))
+				j := ref.CompactJWS(k, k.Header(""), pl)
+				h, _, sg := ref.SplitJWS(j)
+				alt := h + "." + ref.B64([]byte(fmt.Sprintf(`{"n":%d,"type":"%s"}`, n+5, t))) + "." + sg
+				cases = append(cases, jwsCase{Kind: "verify", JWS: j, JWK: jwkStrings(k)}, jwsCase{Kind: "verify", JWS: alt, JWK: jwkStrings(k)})
+			}
+		}
+		for round := 0; round < c.N(2, 20); round++ {
+			c.Eval()
+			st, msg, ok := call(jwsCase{Kind: "concurrent", Seq: cases, KeySeed: ref.B64(rng.Bytes(16))})
+			if !ok {
+				return
+			}
+			if st != "OK" {
+				c.Violation("C09 concurrent callers: "+msg, map[string]interface{}{"cases": len(cases)})
+				return
+			}
+			c.Count("concurrent_rounds")
 		}
 	}
 	// one signer object signing twice: the first signature stays valid and unchanged
@@ -562,6 +686,7 @@ func checkC09(c *hx.Ctx) {
 	for _, t := range ref.KeyTypes {
 		c.Floor("accepted:genuine:ref:"+t, 4)
 		c.Floor("signer_used_twice:"+t, 3)
+		c.Floor("library_jwk_of_key_with_leading_zero_coordinate:"+t, 1)
 		c.Floor("accepted:genuine:library:"+t, 2)
 		c.Floor("rejected:header-byte:"+t, 50)
 		c.Floor("rejected:payload-byte:"+t, 50)
@@ -569,6 +694,7 @@ func checkC09(c *hx.Ctx) {
 	}
 	c.Floor("random_ERR", 10000)
 	c.Floor("resplit_jwk_sequences", 20)
+	c.Floor("concurrent_rounds", 2)
 }
 
 func fixedBytes(b *big.Int, size int) []byte {
